@@ -68,7 +68,11 @@ def t_timeout(ctx):
 
     async def main():
         m = ctx.main
-        p = m.dispatch(bus, ctx.ev(P, 'P1', event_timeout=float(T)))
+        kw = {}
+        if ctx.cfg.get('orphan_parent'):
+            # the event names a parent that is in no bus's history (dispatched by another process, replayed from a log, evicted)
+            kw['event_parent_id'] = '11111111-2222-7333-8444-555555555555'
+        p = m.dispatch(bus, ctx.ev(P, 'P1', event_timeout=float(T), **kw))
         l = m.dispatch(bus, ctx.ev(L, 'L1'))
         ctx.rec('AB', by='main', ev='idle:A')
         await bus.wait_until_idle()
@@ -213,7 +217,9 @@ def jobs(tier):
         out.append(Job('C10', 's1.timeout', t_timeout, dict(T='1/4', depth=2, child='ff'), witnesses=W))
         out.append(Job('C10', 's1.timeout', t_timeout, dict(T='1/4', depth=2, child='none', sibling=False), witnesses=W))
         out.append(Job('C10', 's1.timeout', t_timeout, dict(T='0', depth=2, child='await'), witnesses=('timeout fired',)))
+        out.append(Job('C10', 's1.timeout', t_timeout, dict(T='1/4', depth=2, child='await', orphan_parent=True), witnesses=W))
     else:
+        out.append(Job('C10', 's1.timeout', t_timeout, dict(T='1/4', depth=2, child='await', orphan_parent=True), witnesses=W))
         out.append(Job('C10', 's1.timeout', t_timeout, dict(T='0', depth=2, child='await'), witnesses=('timeout fired',)))
         out.append(Job('C10', 's1.timeout', t_timeout, dict(T='0', depth=2, child='none', sibling=False), witnesses=('timeout fired',)))
         for T in ('1/4', '3/20', '1'):
